@@ -659,6 +659,29 @@ def oracle_nonbiasing(run, sc, R):
             return
 
 
+def oracle_errors(run, sc, tag, subset, isteps):
+    """O7: valid configurations and histories raise no error.  The one recorded exception: a bias with factor > 1 that a
+    script event switched on/off is out of step with the awake schedule (known finding disabled:reactivated-by-schedule)"""
+    for s, im in enumerate(isteps):
+        if im["err"]:
+            touched = set()
+            c = -1
+            for ev in sc["events"]:
+                if ev[0] == "X":
+                    if ev[1] in subset and sc["biases"][ev[1]]["tsf"] > 1:
+                        touched.add(ev[1])
+                else:
+                    c += 1
+                    if c == s:
+                        break
+            sig = "pipeline:disabled:reactivated-by-schedule" if touched else "pipeline:error-raised"
+            run.violation(sig, "scenario %d run %s step %d (it=%d): colvarmodule::calc() raised an error (class %s) on a valid configuration and history%s"
+                          % (sc["id"], tag, s, im["it"], im["errc"],
+                             "; biases with factor > 1 switched by script before: %s" % sorted(touched) if touched else ""),
+                          replay_of(sc, {tag: subset}, {"step_index": s}))
+            return
+
+
 def oracle_var_tsf(run, sc, tag, subset, isteps):
     """O4: a variable with factor n is evaluated and biased only at multiples of n"""
     ne = first_error(isteps)
@@ -868,6 +891,7 @@ def check(run):
                     windows += w
                     nontriv = nontriv or w > 0
                     oracle_var_tsf(run, sc, t, sub, isteps)
+                oracle_errors(run, sc, t, sub, isteps)
                 if t in ("AB",) and any(sum(b["act"] for b in stp["B"]) >= 2 for stp in isteps):
                     nontriv = True
             if "AB" in R:
